@@ -66,7 +66,7 @@ pub fn check_inline(bytes: &[u8]) -> Result<bool, (String, String)> {
 }
 
 pub fn run(thorough: bool) -> Report {
-    let mut rep = Report::new("single operations: 12 operators x 0..2 operands over the direct-object alphabet (all combinations); sequences of 2 and 3 operations over a 9-operation set (all); all 65 536 byte pairs as name / literal / hex string operands; inline images: W,H in 1..3 x {G,RGB,CMYK and long names} x BPC {1,8} x abbreviated/long keys", true);
+    let mut rep = Report::new("single operations: 12 operators x 0..2 operands over the direct-object alphabet (all combinations); sequences of 2 and 3 operations over a 9-operation set (all); all 65 536 byte pairs as name / literal / hex string operands; inline images: W,H in 1..3 x {G,RGB,CMYK and long names} x BPC {1,8} x abbreviated/long keys; nesting depth: a TJ operand that is an array / a dictionary / alternating arrays and dictionaries (every level with leaf siblings before and after the nested child) / a literal string of balanced parentheses, nested 1..L-1 deep (every depth; L = 32 for arrays and dictionaries, 100 for parentheses: the parser's nesting limits) must round-trip, nested L, L+1, L+2, 99, 100, 101, 150, 200 deep must round-trip or be rejected with an error; thread history: these nesting probes plus an ordinary text sequence, a bare operator and an inline image are checked in turn on a fresh thread, and again on a fresh thread that first decoded each history over a 27-item alphabet of earlier Content::decode inputs (well-formed content nested L-1 / L / L+1 / 200 deep in each shape, truncated content with 50 / 100 / 101 / 150 / 200 unclosed openers, stray closers, an inline image with missing data, an ordinary sequence, a valid inline image): every single item repeated {1, 3, 33, 100} times (thorough: {1, 2, 3, 31, 32, 33, 100, 250}), every ordered pair over a 12-item sub-alphabet (thorough: every ordered pair of all 27 items and every ordered triple over the 12-item sub-alphabet); each of the 431 distinct items is also decoded on a fresh thread of its own; what a thread decoded before, accepted or rejected, must not change any result", true);
     let alpha = direct_alphabet();
     // 1. single operations
     let mut cases: Vec<Vec<Operation>> = vec![];
@@ -105,13 +105,255 @@ pub fn run(thorough: bool) -> Report {
         rep.case(true);
         if let Err((o, d)) = check_inline(&b) { rep.fail(&o, d.clone(), json!({"kind": "inline", "bytes": hex(&b)}), d); }
     } } } } } }
+    // 5. nesting depth x thread history
+    histories_section(&mut rep, thorough);
     rep
 }
 
 pub fn replay(v: &Value) -> Result<(), String> {
     match v["kind"].as_str() {
         Some("ops") => check_ops(&ops_from_json(v)).map_err(|e| format!("{}: {}", e.0, e.1)),
+        Some("history") => replay_history(v),
         Some("inline") => check_inline(&unhex(v["bytes"].as_str().unwrap_or(""))).map(|_| ()).map_err(|e| format!("{}: {}", e.0, e.1)),
         _ => Err("unknown replay kind".into()),
     }
+}
+
+// ---------------------------------------------------------------------------------------------------------------
+// Nesting depth and thread history.
+//
+// The property quantifies over operands "nested arbitrarily" and over every call of decode, whatever the calling
+// thread decoded before. The parser documents one limit: arrays, dictionaries and the parentheses of a literal
+// string may nest at most MAX_BRACKET deep, deeper input is rejected. So an `Item` below is one piece of content,
+// a case is a sequence of items decoded one after the other on ONE fresh thread (the history, then the probes), and
+// the expected result of every step is a function of that step's item alone:
+//   well-formed, nested at most deepest(shape) deep : decode(encode(ops)) == ops
+//   well-formed, nested deeper               : decode(encode(ops)) == ops, or decode returns an error
+//   malformed (truncated, stray closers)     : anything but a panic
+const PLIMIT: usize = 100; // parentheses of a literal string: lopdf::reader::MAX_BRACKET
+const CLIMIT: usize = 32; // arrays and dictionaries: MAX_CONTAINER_DEPTH in src/parser/mod.rs (private; /repo repair of the 2 MiB stack overflow)
+fn limit(shape: Shape) -> usize { if matches!(shape, Shape::Parens | Shape::Stray) { PLIMIT } else { CLIMIT } }
+/// every nesting up to here must be accepted
+fn deepest(shape: Shape) -> usize { limit(shape) - 1 }
+
+#[derive(Clone, Copy, PartialEq, Eq, Debug)]
+enum Shape { Ordinary, Bare, Inline, BadInline, Array, Dict, Mixed, Parens, Stray }
+const SHAPES: &[(Shape, &str)] = &[(Shape::Ordinary, "ordinary"), (Shape::Bare, "bare"), (Shape::Inline, "inline"), (Shape::BadInline, "bad-inline"), (Shape::Array, "array"),
+    (Shape::Dict, "dict"), (Shape::Mixed, "mixed"), (Shape::Parens, "parens"), (Shape::Stray, "stray")];
+
+/// one piece of content: `closed` = well-formed (built as operations and encoded by the library), otherwise only the `depth` openers (raw bytes)
+#[derive(Clone, Copy, PartialEq, Eq, Debug)]
+struct Item { shape: Shape, depth: usize, closed: bool }
+fn item(shape: Shape, depth: usize, closed: bool) -> Item { Item { shape, depth, closed } }
+
+enum Payload { Ops(Vec<Operation>), Inline(Vec<u8>), Raw(Vec<u8>) }
+
+fn nested(shape: Shape, depth: usize) -> Object {
+    // level 1 is the innermost container; the outermost (level `depth`) of Mixed is an array
+    let is_array = |level: usize| match shape { Shape::Array => true, Shape::Dict => false, _ => (depth - level) % 2 == 0 };
+    let mut o = if is_array(1) { Object::Array(vec![Object::Integer(7), name(b"Leaf")]) } else { Object::Dictionary(dict(vec![(b"A", Object::Integer(7)), (b"B", name(b"Leaf"))])) };
+    for level in 2..=depth {
+        o = if is_array(level) { Object::Array(vec![Object::Integer(1), o, lit(b"x")]) } else { Object::Dictionary(dict(vec![(b"A", Object::Integer(1)), (b"K", o), (b"Z", lit(b"x"))])) };
+    }
+    o
+}
+
+impl Item {
+    fn nesting(&self) -> bool { matches!(self.shape, Shape::Array | Shape::Dict | Shape::Mixed | Shape::Parens) }
+    fn payload(&self) -> Payload {
+        let d = self.depth;
+        match (self.shape, self.closed) {
+            (Shape::Ordinary, _) => Payload::Ops(vec![
+                Operation::new("BT", vec![]), Operation::new("Tf", vec![name(b"F1"), Object::Integer(12)]), Operation::new("Td", vec![Object::Integer(100), Object::Integer(600)]),
+                Operation::new("TJ", vec![Object::Array(vec![lit(b"Hello"), Object::Integer(-120), lit(b"World")])]), Operation::new("ET", vec![])]),
+            (Shape::Bare, _) => Payload::Ops(vec![Operation::new("q", vec![])]),
+            (Shape::Inline, _) => Payload::Inline(inline_image_bytes(2, 2, "RGB", 3, 8, true, 0x45)),
+            (Shape::BadInline, _) => Payload::Raw(b"q\nBI /W 4 /H 4 /BPC 8 /CS /RGB ID abc EI\nQ".to_vec()),
+            (Shape::Stray, _) => Payload::Raw([&b"q\n"[..], &b"] >> ) ".repeat(d), &b"Q"[..]].concat()),
+            (Shape::Parens, true) => Payload::Ops(vec![Operation::new("q", vec![]), Operation::new("Tj", vec![lit(&[b"(".repeat(d), b"x".to_vec(), b")".repeat(d)].concat()), Object::Integer(d as i64)]), Operation::new("Q", vec![])]),
+            (_, true) => Payload::Ops(vec![Operation::new("q", vec![]), Operation::new("TJ", vec![nested(self.shape, d), Object::Integer(d as i64)]), Operation::new("Q", vec![])]),
+            (Shape::Parens, false) => Payload::Raw([&b"q\n"[..], &b"(".repeat(d + 1), &b"x Tj\nQ"[..]].concat()), // d + 1: a string's own parentheses are not nesting
+            (shape, false) => {
+                let mut b = b"q\n".to_vec();
+                for i in 0..d { if shape == Shape::Array || (shape == Shape::Mixed && i % 2 == 0) { b.extend_from_slice(b"[1 "); } else { b.extend_from_slice(b"<</A 1/K "); } }
+                b.extend_from_slice(b"7 TJ\nQ");
+                Payload::Raw(b)
+            }
+        }
+    }
+    fn describe(&self) -> String {
+        let what = match self.shape {
+            Shape::Ordinary => return "an ordinary text sequence (BT Tf Td TJ ET)".into(), Shape::Bare => return "the bare operator q".into(), Shape::Inline => return "a valid 2x2 RGB inline image".into(),
+            Shape::BadInline => return "an inline image with too little data".into(), Shape::Stray => return format!("{} stray closers '] >> )'", self.depth),
+            Shape::Array => "an array", Shape::Dict => "a dictionary", Shape::Mixed => "alternating arrays and dictionaries", _ => "a literal string of balanced parentheses",
+        };
+        if self.closed { format!("q / TJ / Q whose operand is {} nested {} deep", what, self.depth) } else { format!("truncated content: {} unclosed openers of {}", self.depth, what) }
+    }
+    fn to_json(&self) -> Value { json!({"shape": SHAPES.iter().find(|s| s.0 == self.shape).unwrap().1, "depth": self.depth, "closed": self.closed}) }
+    fn from_json(v: &Value) -> Option<Item> {
+        let shape = SHAPES.iter().find(|s| Some(s.1) == v["shape"].as_str())?.0;
+        Some(Item { shape, depth: v["depth"].as_u64()? as usize, closed: v["closed"].as_bool()? })
+    }
+}
+
+type Outcome = Result<&'static str, (String, String)>;
+
+/// like common::guarded, without exchanging the process-wide panic hook twice per call (340 000 steps on 16 threads would queue on its lock);
+/// `histories_section` installs a quiet hook that records the location once for all its threads
+static PANIC_AT: std::sync::Mutex<String> = std::sync::Mutex::new(String::new());
+fn caught<T>(f: impl FnOnce() -> T) -> Result<T, String> {
+    std::panic::catch_unwind(std::panic::AssertUnwindSafe(f)).map_err(|e| {
+        let msg = if let Some(s) = e.downcast_ref::<String>() { s.clone() } else if let Some(s) = e.downcast_ref::<&str>() { s.to_string() } else { "panic".to_string() };
+        format!("panic: {} at {}", msg, PANIC_AT.lock().map(|g| g.clone()).unwrap_or_default())
+    })
+}
+fn with_quiet_panics<T>(f: impl FnOnce() -> T) -> T {
+    let prev = std::panic::take_hook();
+    std::panic::set_hook(Box::new(|info| { if let (Some(l), Ok(mut g)) = (info.location(), PANIC_AT.lock()) { *g = format!("{}:{}", l.file(), l.line()); } }));
+    let r = f();
+    std::panic::set_hook(prev);
+    r
+}
+
+/// decode one item on the current thread: Ok(what happened) or Err((obligation, detail)); the verdict depends on the item only
+fn run_step(it: &Item) -> Outcome {
+    match it.payload() {
+        Payload::Raw(bytes) => match caught(|| Content::decode(&bytes)) { Ok(Ok(_)) => Ok("decoded"), Ok(Err(_)) => Ok("rejected"), Err(p) => Err(("decode-no-panic".into(), format!("{}: {}", it.describe(), p))) },
+        Payload::Inline(bytes) => check_inline(&bytes).map(|_| "round-trips").map_err(|(o, d)| (o, format!("{}: {}", it.describe(), d))),
+        Payload::Ops(ops) => {
+            let c = Content { operations: ops.clone() };
+            let enc = match caught(|| c.encode()) { Ok(Ok(e)) => e, other => return Err(("encode".into(), format!("{}: {:?}", it.describe(), other.map(|r| r.map_err(|e| e.to_string()))))) };
+            let must_accept = !it.nesting() || it.depth <= deepest(it.shape);
+            let shown = if enc.len() <= 80 { String::from_utf8_lossy(&enc).to_string() } else { format!("{} ... {}", String::from_utf8_lossy(&enc[..40]), String::from_utf8_lossy(&enc[enc.len() - 30..])) };
+            match caught(|| Content::decode(&enc)) {
+                Err(p) => Err(("decode-no-panic".into(), format!("{}: {}", it.describe(), p))),
+                Ok(Err(_)) if !must_accept => Ok("rejected"),
+                Ok(Err(e)) => Err(("decode-equals-encoded".into(), format!("{}{}: the {} encoded bytes {:?} fail to decode: {}", it.describe(), if it.nesting() { format!(" (within the nesting limit of {})", limit(it.shape)) } else { String::new() }, enc.len(), shown, e))),
+                Ok(Ok(d)) if ops_eq(&ops, &d.operations) => Ok("round-trips"),
+                Ok(Ok(d)) => Err(("decode-equals-encoded".into(), format!("{}: the {} encoded bytes {:?} are neither rejected nor decoded to the {} encoded operations: decode returns Ok with {} operations [{}]",
+                    it.describe(), enc.len(), shown, ops.len(), d.operations.len(), d.operations.iter().map(|o| format!("{}/{}", o.operator, o.operands.len())).collect::<Vec<_>>().join(" ")))),
+            }
+        }
+    }
+}
+
+/// own thread (fresh thread-local parser state) with a roomy stack: the parser recurses once per nesting level
+fn on_fresh_thread<T: Send + 'static>(f: impl FnOnce() -> T + Send + 'static) -> T {
+    std::thread::Builder::new().stack_size(64 << 20).spawn(f).expect("spawn").join().expect("the steps catch their panics")
+}
+
+/// decode the steps one after the other on one fresh thread; returns the outcome of every step
+fn run_steps(steps: Vec<Item>) -> Vec<Outcome> { on_fresh_thread(move || steps.iter().map(run_step).collect()) }
+/// the result of the last step of `steps`, decoded on one fresh thread after all the others
+fn last_outcome(steps: Vec<Item>) -> Outcome { run_steps(steps).pop().expect("at least one step") }
+
+fn probes() -> Vec<Item> {
+    let mut v = vec![item(Shape::Ordinary, 0, true), item(Shape::Bare, 0, true), item(Shape::Inline, 0, true)];
+    for shape in [Shape::Array, Shape::Dict, Shape::Mixed, Shape::Parens] {
+        for d in 1..=deepest(shape) { v.push(item(shape, d, true)); }
+        for d in [limit(shape), limit(shape) + 1, limit(shape) + 2, 99, 100, 101, 150, 200] { v.push(item(shape, d, true)); }
+    }
+    v
+}
+
+/// what a thread may have decoded earlier; the first TRIPLE_ALPHABET items are the sub-alphabet of the triples (and of the quick tier's pairs)
+const TRIPLE_ALPHABET: usize = 12;
+fn history_alphabet() -> Vec<Item> {
+    use Shape::*;
+    vec![
+        // well-formed, at and beyond the limit
+        item(Array, CLIMIT, true), item(Array, CLIMIT + 1, true), item(Dict, CLIMIT + 1, true), item(Mixed, CLIMIT + 1, true), item(Parens, PLIMIT + 1, true),
+        // truncated
+        item(Array, CLIMIT + 1, false), item(Dict, CLIMIT + 1, false), item(Array, 50, false), item(Parens, 150, false),
+        // accepted
+        item(Array, (CLIMIT - 1), true), item(Ordinary, 0, true), item(Inline, 0, true),
+        // (single repetitions and the thorough tier's pairs only)
+        item(Array, 200, true), item(Dict, CLIMIT, true), item(Dict, 200, true), item(Mixed, 200, true), item(Parens, 200, true),
+        item(Array, CLIMIT, false), item(Array, 200, false), item(Dict, 50, false), item(Mixed, CLIMIT + 1, false), item(Parens, 50, false),
+        item(Stray, 1, false), item(Stray, PLIMIT + 1, false), item(BadInline, 0, false),
+        item(Dict, (CLIMIT - 1), true), item(Mixed, (CLIMIT - 1), true),
+    ]
+}
+
+fn histories(thorough: bool) -> Vec<Vec<(Item, usize)>> {
+    let alpha = history_alphabet();
+    let mut v: Vec<Vec<(Item, usize)>> = vec![vec![]];
+    let reps: &[usize] = if thorough { &[1, 2, 3, CLIMIT - 1, CLIMIT, CLIMIT + 1, PLIMIT, 250] } else { &[1, 3, CLIMIT + 1, PLIMIT] };
+    for a in &alpha { for &r in reps { v.push(vec![(*a, r)]); } }
+    let pairs = if thorough { &alpha[..] } else { &alpha[..TRIPLE_ALPHABET] };
+    for a in pairs { for b in pairs { v.push(vec![(*a, 1), (*b, 1)]); } }
+    if thorough { let t = &alpha[..TRIPLE_ALPHABET]; for a in t { for b in t { for c in t { v.push(vec![(*a, 1), (*b, 1), (*c, 1)]); } } } }
+    v
+}
+
+fn expand(h: &[(Item, usize)]) -> Vec<Item> { h.iter().flat_map(|(it, n)| std::iter::repeat(*it).take(*n)).collect() }
+fn compress(steps: &[Item]) -> Vec<(Item, usize)> {
+    let mut v: Vec<(Item, usize)> = vec![];
+    for s in steps { match v.last_mut() { Some((it, n)) if it == s => *n += 1, _ => v.push((*s, 1)) } }
+    v
+}
+fn history_json(h: &[(Item, usize)], probe: &Item) -> Value {
+    json!({"kind": "history", "history": h.iter().map(|(it, n)| { let mut j = it.to_json(); j["times"] = json!(n); j }).collect::<Vec<_>>(), "probe": probe.to_json()})
+}
+fn describe_history(h: &[(Item, usize)], outcomes: &[Outcome]) -> String {
+    let mut at = 0;
+    let mut parts = vec![];
+    for (it, n) in h {
+        let mut seen: Vec<&str> = vec![];
+        for o in &outcomes[at..at + n] { let l = match o { Ok(l) => *l, Err(_) => "FAILED" }; if !seen.contains(&l) { seen.push(l); } }
+        at += n;
+        if parts.len() < 6 { parts.push(format!("{} x {} [{}]", n, it.describe(), seen.join(", "))); }
+    }
+    if h.len() > 6 { parts.push(format!("... ({} more entries, see the recorded input)", h.len() - 6)); }
+    parts.join("; then ")
+}
+
+fn histories_section(rep: &mut Report, thorough: bool) {
+    let probes = probes();
+    let hs = histories(thorough);
+    rep.sample(format!("history {:?} then {} probes", hs[40], probes.len()));
+    with_quiet_panics(|| {
+        // a. every item on a fresh thread of its own (no history at all)
+        let mut singles = probes.clone();
+        for it in history_alphabet() { if !singles.contains(&it) { singles.push(it); } }
+        let alone: Vec<Outcome> = singles.par_iter().map(|it| last_outcome(vec![*it])).collect();
+        let mut fails_alone: Vec<Item> = vec![];
+        for (it, o) in singles.iter().zip(alone) {
+            rep.case(true);
+            if let Err((obligation, detail)) = o { fails_alone.push(*it); let d = format!("{} (on a fresh thread, nothing decoded before)", detail); rep.fail(&obligation, d.clone(), history_json(&[], it), d); }
+        }
+        // b. every history, then all the probes in turn, on one fresh thread; only what section a did not already report is of interest here
+        let results: Vec<(u64, Option<(String, Value)>)> = hs.par_iter().map(|h| {
+            let hist = expand(h);
+            let mut steps = hist.clone();
+            steps.extend(probes.iter().cloned());
+            let outcomes = run_steps(steps.clone());
+            let failing: Vec<usize> = outcomes.iter().enumerate().filter(|(i, o)| o.is_err() && !fails_alone.contains(&steps[*i])).map(|(i, _)| i).collect();
+            let Some(&i) = failing.first() else { return (outcomes.len() as u64, None) };
+            let (obligation, detail) = outcomes[i].clone().err().unwrap();
+            let culprit = steps[i];
+            // the smaller of two candidate histories that still makes the step fail: the history alone, everything decoded before the step
+            let short: Vec<Item> = hist[..i.min(hist.len())].to_vec();
+            let mut with_short = short.clone(); with_short.push(culprit);
+            let before: Vec<Item> = if last_outcome(with_short).is_err() { short } else { steps[..i].to_vec() };
+            let before_c = compress(&before);
+            let d = format!("[{} of {} steps on this thread fail although they pass on a fresh thread] ({}) {} -- the same content round-trips on a fresh thread, but not on a thread that first decoded {}",
+                failing.len(), outcomes.len(), obligation, detail, describe_history(&before_c, &outcomes[..before.len()]));
+            (outcomes.len() as u64, Some((d, history_json(&before_c, &culprit))))
+        }).collect();
+        for (n, f) in results {
+            rep.evaluations += n; rep.nontrivial += n;
+            if let Some((d, i)) = f { rep.fail("decode-independent-of-thread-history", d.clone(), i, d); }
+        }
+    });
+}
+
+fn replay_history(v: &Value) -> Result<(), String> {
+    let mut steps: Vec<Item> = vec![];
+    for e in v["history"].as_array().cloned().unwrap_or_default() {
+        let it = Item::from_json(&e).ok_or("bad history entry")?;
+        for _ in 0..e["times"].as_u64().unwrap_or(1) { steps.push(it); }
+    }
+    steps.push(Item::from_json(&v["probe"]).ok_or("bad probe")?);
+    last_outcome(steps).map(|_| ()).map_err(|e| format!("{}: {}", e.0, e.1))
 }
